@@ -308,6 +308,11 @@ func cmdCheck(args []string) int {
 	for _, x := range keys(unmod) {
 		assumptions = append(assumptions, "unmodelled call (result and heap havocked): "+x)
 	}
+	for _, x := range keys(notes) {
+		if strings.Contains(x, "(assumed)") {
+			assumptions = append(assumptions, x)
+		}
+	}
 	for _, x := range cfg.NotCovered {
 		assumptions = append(assumptions, "not covered: "+x)
 	}
